@@ -9,6 +9,7 @@ package websocket
 //@   props C13
 //@   safety index slice nil div assert panic
 //@   ensures rfc: result == ((1000 <= code && code <= 1003) || (1007 <= code && code <= 1011) || (3000 <= code && code <= 4999))  // prop C13
+//@   assigns allocates
 
 //@ func (*Conn).isMessageTooLarge
 //@   props C15
@@ -76,6 +77,11 @@ package websocket
 // ---- the connection monitor. The parser state (cache, message under assembly, fragmentation state) is written only
 // by the single reader that calls Parse, and by CloseAndClean under the mutex together with closed = true; the
 // reader's knowledge of it between its critical sections is kept in thread-local ghosts tied to the monitor.
+// user-handler and close counters (message-level validation, C13)
+//@ ghost gMsgH : Int
+//@ ghost gCloseH : Int
+//@ ghost gWsClose : Int
+//@ ghost gErrFrames : Int
 //@ ghost local Conn.gRCache : Int
 //@ ghost local Conn.gW : Int
 //@ ghost local Conn.gBase : Int
@@ -238,7 +244,7 @@ package websocket
 //@   params c w level
 //@   ensures result != nil
 //@   assigns allocates
-//@ pred SendKeeps(c *Conn) := WsWired(c) && c.Conn == old(c.Conn) && (forall wb *writeBuffer :: wb.pbuf == old(wb.pbuf)) && c.Engine.MaxWebsocketFramePayloadSize == old(c.Engine.MaxWebsocketFramePayloadSize) && c.commonFields == old(c.commonFields) && c.closed == old(c.closed) && c.bytesCached == old(c.bytesCached) && c.message == old(c.message) && c.msgType == old(c.msgType) && c.expectingFragments == old(c.expectingFragments) && c.compress == old(c.compress) && holds(c.mux) == old(holds(c.mux))
+//@ pred SendKeeps(c *Conn) := WsWired(c) && c.Conn == old(c.Conn) && c.Engine == old(c.Engine) && gMsgH == old(gMsgH) && gCloseH == old(gCloseH) && gWsClose == old(gWsClose) && gErrFrames == old(gErrFrames) && (forall wb *writeBuffer :: wb.pbuf == old(wb.pbuf)) && c.Engine.MaxWebsocketFramePayloadSize == old(c.Engine.MaxWebsocketFramePayloadSize) && c.commonFields == old(c.commonFields) && c.closed == old(c.closed) && c.bytesCached == old(c.bytesCached) && c.message == old(c.message) && c.msgType == old(c.msgType) && c.expectingFragments == old(c.expectingFragments) && c.compress == old(c.compress) && holds(c.mux) == old(holds(c.mux))
 //@ iface io.WriteCloser.Write
 //@   note a flate writer feeding a writeBuffer: allocates and grows buffers of its own only
 //@   ensures forall q int :: old(liveP[q]) ==> liveP[q]
@@ -260,6 +266,7 @@ package websocket
 //@   requires notdrainer: !c.gQTok
 //@   ensures ctlbig: isCtl(messageType) && len(data) > 125 ==> result != nil && c.gFrames == 0       // prop C15 C13
 //@   ensures unlocked: !holds(c.mux)                                                                  // prop C14
+//@   ensures counters: gMsgH == old(gMsgH) && gCloseH == old(gCloseH) && gWsClose == old(gWsClose) && gErrFrames == old(gErrFrames) && c.commonFields == old(c.commonFields) && c.Engine == old(c.Engine)
 //@   assigns everything
 //@   at entry ghost { c.gFrames = 0; c.gW = 0; c.gWP = 0 }
 //@   note the compression buffer is this call's own: new, or grown by the compressor, never one of the reader's buffers
@@ -280,6 +287,7 @@ package websocket
 //@   loop 1
 //@     invariant holds(c.mux) && WsWired(c) && c.Engine.MaxWebsocketFramePayloadSize > 0 && len(data) >= 0 && c.Conn != nil
 //@     invariant isCtl(messageType) ==> len(data) <= 125
+//@     invariant gMsgH == old(gMsgH) && gCloseH == old(gCloseH) && gWsClose == old(gWsClose) && gErrFrames == old(gErrFrames) && c.commonFields == old(c.commonFields) && c.Engine == old(c.Engine)
 //@     invariant c.gFrames >= 0 && (c.gFrames > 0 ==> base(data) == c.gBase && off(data) == c.gEnd && c.gEnd + len(data) == c.gOff0 + c.gTotal) && (sendOpcode == (c.gFrames == 0)) && (sendCompress ==> c.gFrames == 0)
 //@     invariant !c.closed ==> WsOwn(c)
 //@     invariant !c.closed && SendQ(c) && !c.gQTok && (c.gQASnap ==> c.gQActive && c.gQNext == c.gQSnap) && (c.gWP != 0 ==> !c.gQIn[c.gWP] && c.gWP <= top)
@@ -371,3 +379,69 @@ package websocket
 //@   ensures unlocked: !holds(c.mux)                                                                  // prop C14
 //@   at before:writeFrame#1 assert locked: holds(c.mux) && !c.closed                                  // prop C14
 //@   assigns everything
+
+// ---- message-level validation (C13): what reaches the user handlers has passed the RFC 6455 checks; a message that fails
+// them is answered with a close frame (1002) and the connection is closed, the handler is not called
+//@ ghost local Conn.gUtfA : Bool
+//@ ghost local Conn.gUtfB : Bool
+//@ fieldfunc nbhttp/websocket.commonFields.messageHandler
+//@   havoc
+//@   note user code: it does not rewire the connection it is called for
+//@   ensures c.commonFields == old(c.commonFields) && c.Engine == old(c.Engine) && c.Conn == old(c.Conn)
+//@   ensures gMsgH == old(gMsgH) + 1 && gCloseH == old(gCloseH) && gWsClose == old(gWsClose) && gErrFrames == old(gErrFrames)
+//@ fieldfunc nbhttp/websocket.commonFields.closeMessageHandler
+//@   havoc
+//@   note user code: it does not rewire the connection it is called for
+//@   ensures c.commonFields == old(c.commonFields) && c.Engine == old(c.Engine) && c.Conn == old(c.Conn)
+//@   ensures gCloseH == old(gCloseH) + 1 && gMsgH == old(gMsgH) && gWsClose == old(gWsClose) && gErrFrames == old(gErrFrames)
+//@ fieldfunc nbhttp/websocket.commonFields.pingMessageHandler
+//@   havoc
+//@   note user code: it does not rewire the connection it is called for
+//@   ensures c.commonFields == old(c.commonFields) && c.Engine == old(c.Engine) && c.Conn == old(c.Conn)
+//@   ensures gCloseH == old(gCloseH) && gMsgH == old(gMsgH) && gWsClose == old(gWsClose) && gErrFrames == old(gErrFrames)
+//@ fieldfunc nbhttp/websocket.commonFields.pongMessageHandler
+//@   havoc
+//@   note user code: it does not rewire the connection it is called for
+//@   ensures c.commonFields == old(c.commonFields) && c.Engine == old(c.Engine) && c.Conn == old(c.Conn)
+//@   ensures gCloseH == old(gCloseH) && gMsgH == old(gMsgH) && gWsClose == old(gWsClose) && gErrFrames == old(gErrFrames)
+//@ fieldfunc nbhttp.Engine.CheckUtf8
+//@   note utf8.Valid or a user replacement: a pure test
+//@   assigns allocates
+//@ func (*Conn).SetCloseError
+//@   trusted
+//@   note records the first close error under the mutex
+//@   assigns c.closeErr, allocates
+//@ func (*Conn).Close
+//@   trusted
+//@   note closes the underlying connection (now, or after the configured delay in asynchronous-write mode)
+//@   ensures gWsClose == old(gWsClose) + 1
+//@   assigns gWsClose, allocates
+//@ func (*Conn).SetReadDeadline
+//@   trusted
+//@   assigns allocates
+//@ func (*Conn).handleWsMessage$1
+//@   inline
+//@ func (*Conn).handleWsMessage$2
+//@   inline
+//@ func (*Conn).handleWsMessage
+//@   props C13
+//@   safety index slice nil div assert panic make
+//@   requires WsWired(c) && !holds(c.mux) && c.Engine.MaxWebsocketFramePayloadSize > 0 && c.Conn != nil && !c.gQTok
+//@   requires c != nil && c.commonFields != nil && c.Engine != nil && c.Engine.CheckUtf8 != nil && c.messageHandler != nil && c.closeMessageHandler != nil && c.pingMessageHandler != nil && c.pongMessageHandler != nil
+//@   ensures binary: opcode == BinaryMessage ==> gMsgH == old(gMsgH) + 1 && gWsClose == old(gWsClose)                 // prop C13
+//@   ensures textok: opcode == TextMessage && (pData == nil || c.gUtfA) ==> gMsgH == old(gMsgH) + 1 && gWsClose == old(gWsClose)   // prop C13
+//@   ensures textbad: opcode == TextMessage && pData != nil && !c.gUtfA ==> gMsgH == old(gMsgH) && gErrFrames == old(gErrFrames) + 1 && gWsClose == old(gWsClose) + 1   // prop C13
+//@   ensures closeshort: opcode == CloseMessage && pData != nil && old(len(*pData)) == 1 ==> gWsClose == old(gWsClose) + 1   // prop C13
+//@   ensures closebadcode: opcode == CloseMessage && pData != nil && old(len(*pData)) >= 2 && !ValidCode(old((*pData)[0]) * 256 + old((*pData)[1])) ==> gCloseH == old(gCloseH) && gErrFrames == old(gErrFrames) + 1 && gWsClose == old(gWsClose) + 1   // prop C13
+//@   ensures closebadtext: opcode == CloseMessage && pData != nil && old(len(*pData)) >= 2 && ValidCode(old((*pData)[0]) * 256 + old((*pData)[1])) && !c.gUtfB ==> gCloseH == old(gCloseH) && gErrFrames == old(gErrFrames) + 1 && gWsClose == old(gWsClose) + 1   // prop C13
+//@   ensures closeok: opcode == CloseMessage && (pData == nil || old(len(*pData)) == 0 || (old(len(*pData)) >= 2 && ValidCode(old((*pData)[0]) * 256 + old((*pData)[1])) && c.gUtfB)) ==> gCloseH == old(gCloseH) + 1 && gErrFrames == old(gErrFrames) && gWsClose == old(gWsClose) + 1   // prop C13
+//@   assigns everything
+//@   at entry ghost { c.gUtfA = true; c.gUtfB = true }
+//@   at call:CheckUtf8#1 ghost { c.gUtfA = result }
+//@   at call:CheckUtf8#2 ghost { c.gUtfB = result }
+//@   note a close frame whose payload is a single byte is malformed (RFC 6455 5.5.1): it is reported as a protocol error, never as a clean close
+//@   at before:closeMessageHandler#1 assert closecode: (pData != nil && len(*pData) == 1 ==> arg_code == 1002) && (pData == nil || len(*pData) == 0 ==> arg_code == 1005) && (pData != nil && len(*pData) >= 2 ==> arg_code == (*pData)[0] * 256 + (*pData)[1])   // prop C13
+//@   at call:WriteMessage#1 ghost { gErrFrames = gErrFrames + 1 }
+//@   at call:WriteMessage#2 ghost { gErrFrames = gErrFrames + 1 }
+//@   at call:WriteMessage#3 ghost { gErrFrames = gErrFrames + 1 }
+//@ pred ValidCode(code int) := (1000 <= code && code <= 1003) || (1007 <= code && code <= 1011) || (3000 <= code && code <= 4999)
